@@ -475,7 +475,7 @@ PROPS['C14'] = dict(level='proof', units=['registry', 'flag', 'pipe', 'backend_c
 # Engine V on the real mutators (extracted mechanically on every run, see lib/verus_registry.py): unbounded
 UNITS['registry_verus'] = dict(name='registry_verus', engine='verus', module='verus_registry', entry='run_registry', min_verified=12, rlimit=30,
     obligations=['C05.V-UNREG-IFF-LIVE', 'C05.V-PUBLISH-IFF-CHANGED', 'C05.V-REMOVE-ONLY-IT', 'C05.V-UNREG-SIGNAL', 'C05.V-REG-APPEND',
-                 'C05.V-ID-FRESH', 'C05.V-INV', 'C05.V-NO-PANIC', 'C02.V-ID-MONO', 'C04.V-PREV-PUBLISHED', 'C14.V-ERR-NO-PUBLISH', 'C05.V-HISTORY', 'C05.V-INV-BASE'])
+                 'C05.V-ID-FRESH', 'C05.V-INV', 'C05.V-NO-PANIC', 'C02.V-ID-MONO', 'C04.V-PREV-PUBLISHED', 'C14.V-ERR-NO-PUBLISH', 'C05.V-HISTORY', 'C05.V-INV-BASE', 'C04.V-REG-ORDER', 'C05.V-INSTALL-ONLY-NEW'])
 FV = 'registry lib.rs (extracted text, Verus, every registry state satisfying Inv - unbounded): '
 obl('C05.V-UNREG-IFF-LIVE', FV + 'unregister', 'result == (id.action is in the map of id.signal in the snapshot read under the writer mutex)')
 obl('C05.V-PUBLISH-IFF-CHANGED', FV + 'unregister, unregister_signal, register_unchecked_impl', 'the guard publishes exactly once iff the view changes (never before, never twice; zero publications when the result is false)', also=['C01', 'C02'])
@@ -487,6 +487,8 @@ obl('C05.V-INV', FV + 'all three mutators', 'representation invariant (every id 
 obl('C05.V-NO-PANIC', FV + 'all three mutators', 'no verifier-generated check on a line of the real code fails: assert!(insert(..).is_none()) cannot fire, no arithmetic overflow (under A9), no unwrap of None')
 obl('C02.V-ID-MONO', FV + 'register_unchecked_impl', 'the new id is greater than every id already registered for that signal (BTreeMap iterates in key order => it runs last)', also=['C05'])
 obl('C04.V-PREV-PUBLISHED', FV + 'register_unchecked_impl', 'occupied: the slot\'s prev is unchanged; vacant: the published slot is the one Slot::new returned for this signal')
+obl('C04.V-REG-ORDER', FV + 'register_unchecked_impl (ghost trace of publications and of the sigaction call)', 'first registration of a signal: the race fallback for THIS signal is published first, while the data lock is held and nothing has been published on `data`; only then Slot::new installs the dispatcher; only then the slot is published - exactly these three events in this order')
+obl('C05.V-INSTALL-ONLY-NEW', FV + 'register_unchecked_impl', 'a registration for a signal that already has a slot performs exactly one event: the publication of the new snapshot - no sigaction call, no change of the fallback', also=['C04'])
 obl('C14.V-ERR-NO-PUBLISH', FV + 'register_unchecked_impl', 'at both early returns (`?` on Prev::detect / Slot::new) nothing has been published on `data`; the function has no other early return (syntactic side condition)')
 obl('C05.V-INV-BASE', FV + 'GlobalData::ensure (the SignalData literal handed to HalfLock::new, extracted)', 'the first published snapshot is the empty registry and satisfies Inv (base case of the induction)')
 obl('C05.V-HISTORY', 'lemmas over the postconditions above (verus/registry/lemmas.rs)', 'for every history of mutator calls of any length: Inv everywhere, next_id monotone, two successful registrations never return the same id, a new id was live in no earlier state, an id removed by unregister stays dead and every later unregister of it returns false and changes nothing (induction, machine-checked)')
